@@ -195,7 +195,7 @@ def _e2e_part(run, prefix):
     """Hook for the end-to-end system driver (registered later in this file)."""
     fn = globals().get("_system_trace")
     if fn:
-        fn(run, prefix)
+        fn(run, prefix, "", n=(18 if run.tier == "quick" else 1000))
 
 
 def C18(run):
@@ -265,7 +265,10 @@ def _system_trace(run, prefix, kind="", n=None):
     if n:
         extra += ["-n", str(n)]
     extra += _only(run, kind)
-    info = run.harness("system", tr, extra=extra, timeout=3000)
+    if run.tier == "thorough" and not _only(run, kind):
+        info = run.harness_sharded("system", tr, extra=extra, shards=8, timeout=3000)   # scenarios are independent per index
+    else:
+        info = run.harness("system", tr, extra=extra, timeout=3000)
     v = run.validate_sharded("TraceSystem", tr, boundary='"ev":"prog"', shards=12, xss="512m")
     run.judge(v, tr, "system-" + (kind or "all"), only=prefix)
     run.cov["distinct_nontrivial"] += info["distinct_nontrivial"]
@@ -286,7 +289,7 @@ SYSTEM_RULE = ("system driver: random module programs for the verifvm runtime (s
 
 def _system_common(run, prefix, kind, mc=True):
     q = run.tier == "quick"
-    _system_trace(run, prefix, kind, n=(18 if q else 600))
+    _system_trace(run, prefix, kind, n=(18 if q else (1000 if kind == "subsets" else 2000)))
     run.cov["rule"] = SYSTEM_RULE
     run.assumptions += ["module programs are DSL programs interpreted by harness/verifvm.go, whose semantics is Exec.tla (trusted: ~300 lines "
                         "of Go against ~150 lines of TLA+); the wazero runtime is out of scope",
@@ -303,7 +306,7 @@ def C01(run):
 def C04(run):
     run.model_check("MCPlan", "MCPlan_quick.cfg", workers=8)
     _system_common(run, "C04:", "resume")
-    _system_trace(run, "C04:", "strategies", n=(14 if run.tier == "quick" else 300))
+    _system_trace(run, "C04:", "strategies", n=(14 if run.tier == "quick" else 1000))
 
 
 def C07(run):
@@ -317,7 +320,7 @@ def C03(run):
     _mc_store(run, "quick" if q else "thorough")
     _store_trace(run, "C03:")
     # pipeline level: fork histories produced by the real bstream/forkable, through the real tier1 pipeline
-    _system_trace(run, "C03:", "forks", n=(24 if q else 700))
+    _system_trace(run, "C03:", "forks", n=(24 if q else 1500))
     run.cov["rule"] = ("fork histories: random fork trees over 2..5 heights (1..2 branches per height, extra extensions, and 'ping-pong' "
                        "histories where two branches alternately overtake each other so that the same blocks are applied, undone, "
                        "re-applied and undone again), random parent-first arrival order and finality progress, turned into new / undo / "
@@ -334,7 +337,7 @@ def C16(run):
     q = run.tier == "quick"
     run.model_check("MCWorker", "MCWorker.cfg", workers=1)
     run.model_check("MCWorker", "MCWorker_transient.cfg", workers=1)
-    _system_trace(run, "C16:", "faults", n=(8 if q else 150))
+    _system_trace(run, "C16:", "faults", n=(8 if q else 320))
     run.cov["rule"] = ("fault scenarios: per generated program, production runs on a cold cache with 1..3 transient faults placed on random "
                        "ProcessRange calls of the request (worker unavailable before the call, stream dropped mid-way, service overloaded, "
                        "connection lost after the job wrote its files) and, in both modes, a deterministic failure of the source mapper at a "
@@ -358,9 +361,12 @@ def C05(run):
     # real scheduler: every Update of real tier1 runs (hook), random job completion orders, cold / warm / subset caches
     tr = _t(run, "system-sched.ndjson")
     total = 0
-    for kind, n in (("strategies", 10 if q else 300), ("subsets", 12 if q else 300), ("schedcex", 4 if q else 40)):
+    for kind, n in (("strategies", 10 if q else 1000), ("subsets", 12 if q else 600), ("schedcex", 4 if q else 100)):
         trk = _t(run, "system-sched-%s.ndjson" % kind)
-        info = run.harness("system", trk, extra=["-x", kind, "-n", str(n)] + _only(run, kind), timeout=3000)
+        if q or _only(run, kind):
+            info = run.harness("system", trk, extra=["-x", kind, "-n", str(n)] + _only(run, kind), timeout=3000)
+        else:
+            info = run.harness_sharded("system", trk, extra=["-x", kind, "-n", str(n)], shards=8, timeout=3000)
         v = run.validate_sharded("TraceSched", trk, boundary='"ev":"prog"', shards=12, xss="512m")
         run.judge(v, trk, "sched-" + kind, only="C05:")
         # a run that hangs or fails is reported by TraceSystem (C05 liveness on the real code: the request must terminate)
